@@ -546,6 +546,7 @@ func init() {
 				spec.ViaLookup = idx%3 == 0
 				spec.RetriesOnlyG0 = onlyG0
 				spec.Redefine = (idx/4)%5 == 2
+				spec.Space = (idx/4)%2 == 1 // lookups through Graph.Task with IDs that end in a blank
 				if r.chance(1, 2) {
 					spec.MaxPar = 1 + r.intn(2)
 				}
